@@ -18,7 +18,7 @@ REQUIRED_COUNTERS = ["optimal.conelp", "optimal.lp", "optimal.socp", "optimal.sd
 
 def plan(tier):
     if tier == "thorough":
-        return [{"variant": "plain", "workers": 16, "cases": 2500}]
+        return [{"variant": "plain", "workers": 16, "cases": 15000}]
     return [{"variant": "plain", "workers": 16, "cases": 120}]
 
 
